@@ -542,6 +542,7 @@ type AnimEncoder struct {
 	prevFrameRect      image.Rectangle    // Bounding rect of previous frame (for dispose-bg). Always valid after a frame is committed.
 	prevMuxIndex       int                // Index of previous frame in muxer (for retroactive dispose update).
 	hasMetadata        bool               // ICC/EXIF/XMP was set: the output must stay a container that carries it.
+	lastFrameLossless  bool               // Codec chosen by the most recent encodeFrame call (mixed mode may differ from opts.Lossless).
 }
 
 // sanitizeKeyframeOptions adjusts kmin/kmax to valid ranges, matching the
@@ -672,6 +673,7 @@ func (e *AnimEncoder) encodeFrame(img image.Image, lossless bool, quality int) (
 	if err != nil {
 		return nil, err
 	}
+	e.lastFrameLossless = lossless
 	if !e.opts.AllowMixed {
 		return bs, nil
 	}
@@ -682,6 +684,7 @@ func (e *AnimEncoder) encodeFrame(img image.Image, lossless bool, quality int) (
 		return bs, nil
 	}
 	if len(bsAlt) < len(bs) {
+		e.lastFrameLossless = !lossless
 		return bsAlt, nil
 	}
 	return bs, nil
@@ -1309,7 +1312,9 @@ func (e *AnimEncoder) Close() error {
 	// WebP and pick the smaller output.
 	// (Not when metadata was set: the simple encoding would silently drop it.)
 	if e.frameCount == 1 && e.prevCanvas != nil && SimpleEncodeFunc != nil && !e.hasMetadata {
-		simpleData, err := SimpleEncodeFunc(e.prevCanvas, e.opts.Lossless, float32(e.opts.Quality))
+		// Same codec as the one chosen for the frame (mixed mode may have
+		// picked the other one): the still must show the same pixels.
+		simpleData, err := SimpleEncodeFunc(e.prevCanvas, e.lastFrameLossless, float32(e.opts.Quality))
 		if err == nil && len(simpleData) > 0 && len(simpleData) < len(animData) {
 			_, writeErr := e.w.Write(simpleData)
 			return writeErr
